@@ -1,0 +1,16 @@
+//go:build verif
+// +build verif
+
+package ShouXingUtil
+
+// Verification exports (build tag verif only): the library's own apparent
+// solar longitude and moon-sun elongation, so that a reported solar term /
+// new moon can be checked as a root of the library's ephemeris.
+
+// VerifSaLon is the apparent ecliptic longitude of the sun (radians) at t
+// Julian centuries (TD) from J2000, all series terms.
+func VerifSaLon(t float64) float64 { return saLon(t, -1) }
+
+// VerifMsaLon is the moon-sun apparent longitude difference (radians) at t
+// Julian centuries (TD) from J2000.
+func VerifMsaLon(t float64) float64 { return msaLon(t, -1, 60) }
